@@ -470,8 +470,10 @@ func (p *parser) advance() {
 	for {
 		current, ok := p.lexer.nextToken()
 		if !ok {
+			verifEv("P", "tokclosed", 0, 0, p.lexer.inputs)
 			return
 		}
+		verifEv("P", "tok", int(current.typ), current.pos, p.lexer.inputs)
 		p.current = current
 		p.stats.tokens++
 		if p.current.typ == tFAIL {
@@ -781,6 +783,7 @@ func (p *parser) error(msg string) {
 
 func (p *parser) errorAt(t *token, msg string) {
 	p.panicMode = true
+	verifEv("P", "err", t.pos, int(t.typ), p.lexer.inputs)
 
 	p.log.Printf("line %s: error", p.linePos.format(t.pos))
 
